@@ -484,7 +484,8 @@ def named(name, fcn):
     Unlike the histogrammar.util.UserFcn constructor, this function avoids duplication (doubly wrapped objects) and
     commutes with histogrammar.util.cached and histogrammar.util.serializable (they can be applied in any order).
     """
-    if isinstance(fcn, UserFcn) and fcn.name is not None:
+    # a name that the constructor derived from the expression itself (its text, the function's __name__) is a default, not a first name
+    if isinstance(fcn, UserFcn) and fcn.name is not None and fcn.name != UserFcn(fcn.expr).name:
         raise ValueError(f"two names applied to the same function: {fcn.name} and {name}")
     if isinstance(fcn, CachedFcn):
         return CachedFcn(fcn.expr, name)
